@@ -483,9 +483,9 @@ def main():
     for co in pinfo.get("config_obligations", []):
         oid = "config::" + co["id"]
         obligations.append(oid)
-        if co.get("kind") == "clap_flags":
+        if co.get("kind") in ("clap_flags", "clap_constraints"):
             import clapflags
-            st, detail = clapflags.check(REPO, co)
+            st, detail = clapflags.check(REPO, co) if co["kind"] == "clap_flags" else clapflags.check_constraints(REPO, co)
             rec = {"id": oid, "kind": "config", "source": ", ".join(x[0] for x in co["declared_in"]), "backend": "mechanical reading of clap derive attributes and of the written flag literals (vx/clapflags.py)",
                    "status": {"ok": "discharged", "violation": "FAILED", "undecided": "undecided"}[st], "detail": detail, "solver_ms": 0, "rlimit": None}
             fn_records.append(rec)
